@@ -93,7 +93,7 @@ func genStream(rt *rapid.T, l string, metricOnly, logOnly bool, big bool, pool [
 		s.Labels = append(s.Labels, [2]string{"__ttl_days__", rapid.SampledFrom([]string{"7", "30", "x"}).Draw(rt, l+".ttlv")})
 	}
 	for i := 0; i < nl; i++ {
-		n := rapid.SampledFrom(labelNames[:6]).Draw(rt, fmt.Sprintf("%s.ln%d", l, i))
+		n := rapid.SampledFrom(labelNames[:8]).Draw(rt, fmt.Sprintf("%s.ln%d", l, i))
 		if seen[n] {
 			continue
 		}
